@@ -74,19 +74,10 @@ func freshURI(t *rapid.T, have []string) string {
 	return fmt.Sprintf("/fresh/%d", len(have))
 }
 
-func genHeaderList(t *rapid.T, min, max int) []string {
+func genHeaderList(t *rapid.T, min, max int, ctx Cfg) []string {
 	n := rapid.IntRange(min, max).Draw(t, "nheaders")
-	seen := map[string]bool{}
-	var out []string
-	for i := 0; i < n; i++ {
-		nm := rapid.SampledFrom(hdrNamePool).Draw(t, "hname")
-		if seen[strings.ToLower(nm)] {
-			continue
-		}
-		seen[strings.ToLower(nm)] = true
-		out = append(out, nm+": "+genValue(t, hdrValuePool, "hvalue"))
-	}
-	return out
+	// half of the lists an operator types in use the header-name classes of (a) (names_test.go)
+	return genHeaderEntries(t, n, rapid.Bool().Draw(t, "header-name-classes"), ctx)
 }
 
 var editKinds = []string{"uris-empty", "uris-fill", "uris-change-one", "uris-add", "uris-remove-one", "uris-replace-all",
@@ -168,7 +159,7 @@ func genEdit(t *rapid.T, cur Cfg) Edit {
 		case "headers-empty":
 			e.Headers = nil
 		case "headers-fill":
-			e.Headers = genHeaderList(t, 1, 3)
+			e.Headers = genHeaderList(t, 1, 3, cur)
 		case "headers-change-value":
 			i := rapid.IntRange(0, len(e.Headers)-1).Draw(t, "which-hdr")
 			nm, v := splitCfgHeader(e.Headers[i])
@@ -179,7 +170,7 @@ func genEdit(t *rapid.T, cur Cfg) Edit {
 				nm, _ := splitCfgHeader(h)
 				have[strings.ToLower(nm)] = true
 			}
-			for _, cand := range genHeaderList(t, 1, 3) {
+			for _, cand := range genHeaderList(t, 1, 3, cur) {
 				nm, _ := splitCfgHeader(cand)
 				if !have[strings.ToLower(nm)] {
 					e.Headers = append(e.Headers, cand)
@@ -433,6 +424,11 @@ func classifyH(c CaseH) core.Class {
 			continue
 		}
 		v := judge(cur, *op.Req)
+		nameClasses := nameClassLabels(cur)
+		for _, l := range nameClasses {
+			cl.Labels = append(cl.Labels, "cfg-in-force:"+l)
+		}
+		cl.Labels = append(cl.Labels, nameClassReqLabels(nameClasses, *op.Req, v)...)
 		kind := "grey"
 		switch {
 		case v.MustAdmit:
@@ -497,7 +493,7 @@ func classifyH(c CaseH) core.Class {
 func TestC12h(t *testing.T) {
 	core.Run(t, core.Spec[CaseH]{
 		Property: "C12", Sub: "h",
-		Rule: "histories on one running listener of a real Teamserver whose profile has Demon.TrustXForwardedFor true or false (half each). The listener is started either by the operator's Listener.Add package through the real DispatchEvent (2/3) or by ts.ListenerStart with the configuration teamserver.go builds for a profile listener, response headers included (1/3). Then 0-3 requests and 1-3 rounds of {an operator Listener.Edit package (the dialog's whole form, Info keys and ', '-joined lists exactly as the client sends them) through the real DispatchEvent -> ts.ListenerEdit, 1-4 requests}. Edits change one or two of: URIs (empty the list, fill an empty one, change one element, add, remove one, replace all), user agent (set/unset/change), request headers (empty, fill, change a value, add, remove one). Requests are generated as in (a) - including its Unicode classes (fold partner / confusable of a configured header value, user agent or URI; configured values with s, k, sigma, micro, composed letters) - around the configuration in force or (40% after an edit) around the previous one, carry X-Forwarded-For always when the profile trusts the redirector and in a third of the cases otherwise, and every one is judged by (a)'s reference judge against the configuration in force at that moment, the redirector flag being the profile's throughout: admitted <=> new entry in ts.Agents with 200 + registration reply + response headers + ExternalIP (X-Forwarded-For iff the profile trusts the redirector, else the peer); otherwise 404, no new agent, no new retained event. Non-trivial: a request served, then an edit, then a request that satisfies the new configuration or was aimed at the old one; distinct = (start mode, profile flag, kind of the last edit, aim and verdict of the first such request)",
+		Rule: "histories on one running listener of a real Teamserver whose profile has Demon.TrustXForwardedFor true or false (half each). The listener is started either by the operator's Listener.Add package through the real DispatchEvent (2/3) or by ts.ListenerStart with the configuration teamserver.go builds for a profile listener, response headers included (1/3). Then 0-3 requests and 1-3 rounds of {an operator Listener.Edit package (the dialog's whole form, Info keys and ', '-joined lists exactly as the client sends them) through the real DispatchEvent -> ts.ListenerEdit, 1-4 requests}. Edits change one or two of: URIs (empty the list, fill an empty one, change one element, add, remove one, replace all), user agent (set/unset/change), request headers (empty, fill, change a value, add, remove one; half of the filled / added lists use (a)'s header-NAME classes: entries named User-Agent, Host, Content-Length, Content-Type, Cookie, repeated names, case variants, trailing blank - so a User-Agent entry meets a UserAgent setting that an edit sets, changes or removes). Requests are generated as in (a) - including its Unicode classes (fold partner / confusable of a configured header value, user agent or URI; configured values with s, k, sigma, micro, composed letters) - around the configuration in force or (40% after an edit) around the previous one, carry X-Forwarded-For always when the profile trusts the redirector and in a third of the cases otherwise, and every one is judged by (a)'s reference judge against the configuration in force at that moment, the redirector flag being the profile's throughout: admitted <=> new entry in ts.Agents with 200 + registration reply + response headers + ExternalIP (X-Forwarded-For iff the profile trusts the redirector, else the peer); otherwise 404, no new agent, no new retained event. Non-trivial: a request served, then an edit, then a request that satisfies the new configuration or was aimed at the old one; distinct = (start mode, profile flag, kind of the last edit, aim and verdict of the first such request)",
 		Gen:  genH, Check: checkH, Classify: classifyH,
 		Assumptions: []string{
 			"operator packages are dispatched without a connected operator socket (replies to 'the user' and broadcasts are no-ops), as CreatePackage + EventAppend + DispatchEvent, which is what handleRequest does after authentication",
